@@ -39,6 +39,12 @@ def to_mcase(case):
             ops.append(('get', op[1], ('const', None)))
         elif k == 'pwrite':
             ops.append(('set', op[1], op[2], True, False))
+        elif k in ('cpread', 'cmread'):
+            # a property stacked on an mprop: p1 is a key/index path (at most one match), so reading p2 from that match
+            # is reading p1 + p2 from the document; a missing match is None and p2 on None is the default
+            ops.append(('get', op[1] + op[2], ('const', None)))
+        elif k == 'cpwrite':
+            ops.append(('set', op[1] + op[2], op[3], True, False))
         else:
             raise ValueError(k)
     return {'doc': case['doc'], 'ops': ops}
@@ -129,4 +135,18 @@ def gen_dcase(rng):
             p = mcase.gen_target(rng, doc, cascade_bias=True)
             if not protects(p):
                 emit(rng.choice([('pread', p), ('mread', p), ('pwrite', p, gen_value(rng))]))
+        if rng.random() < 0.12:
+            # properties stacked on an mprop, read before and after the slot they hang from is created or replaced
+            # (C18-m10: the data source resolved once per instance)
+            p1 = mcase.gen_target(rng, doc, cascade_bias=True)
+            k2 = rng.choice(keys)
+            p2 = [('key', k2, 'item')]
+            if p1 and not protects(p1) and all(s[0] in ('key', 'idx') for s in p1):
+                emit(rng.choice([('cpread', p1, p2), ('cmread', p1, p2)]))
+                emit(('pwrite', p1, {k2: gen_value(rng), 'zz': 1} if rng.random() < 0.8 else gen_value(rng)))
+                emit(rng.choice([('cpread', p1, p2), ('cmread', p1, p2)]))
+                if resolves_to_dict(p1):
+                    emit(('cpwrite', p1, p2, gen_value(rng)))
+                    emit(('cpread', p1, p2))
+                emit(('pread', p1))
     return {'doc': doc, 'decls': decls, 'inner': inner, 'ops': ops}
